@@ -412,6 +412,40 @@ fn sw_random_curve_point<P: sw::SWCurveConfig>(g: &mut G<'_>) -> sw::Affine<P> {
     }
 }
 
+
+/// For a = 0 curves over a quadratic extension Fp[u]/(u^2 - beta): an x whose
+/// right-hand side x^3 + b lies in the prime subfield (there every element is a
+/// square of the extension, half of them non-residues of Fp) — the special case
+/// square-root routines treat separately.  Solves c1(x^3 + b) = 0 for x0 given x1.
+fn sw_x_with_rhs_in_subfield<P: sw::SWCurveConfig>(g: &mut G<'_>) -> Option<P::BaseField> {
+    type Bp<P> = <<P as CurveConfig>::BaseField as Field>::BasePrimeField;
+    if P::BaseField::extension_degree() != 2 || !P::COEFF_A.is_zero() {
+        return None;
+    }
+    let mk = |c0: Bp<P>, c1: Bp<P>| P::BaseField::from_base_prime_field_elems([c0, c1]).unwrap();
+    let u = mk(Bp::<P>::zero(), Bp::<P>::ONE);
+    let beta = u.square().to_base_prime_field_elements().next().unwrap();
+    let b: Vec<Bp<P>> = P::COEFF_B.to_base_prime_field_elements().collect();
+    for _ in 0..64 {
+        let x1 = Bp::<P>::rand(g.rng);
+        if x1.is_zero() {
+            continue;
+        }
+        // c1(x^3) = 3 x0^2 x1 + beta x1^3  =>  x0^2 = -(beta x1^3 + b1) / (3 x1)
+        let three_x1 = x1.double() + x1;
+        let t = -(beta * x1.square() * x1 + b[1]) * three_x1.inverse()?;
+        if let Some(x0) = t.sqrt() {
+            let x = mk(x0, x1);
+            let rhs = x.square() * x + P::COEFF_B;
+            let c: Vec<Bp<P>> = rhs.to_base_prime_field_elements().collect();
+            if c[1].is_zero() {
+                return Some(x);
+            }
+        }
+    }
+    None
+}
+
 fn gen_scalar<F: PrimeField>(g: &mut G<'_>) -> F {
     match g.rng.below(8) {
         0 => F::one(),
@@ -557,7 +591,12 @@ fn sw_encode<P: sw::SWCurveConfig>(x: &P::BaseField, y: &P::BaseField, flags: u8
 }
 
 fn sw_foreign<P: sw::SWCurveConfig>(g: &mut G<'_>, c: Compress) -> Option<(Vec<u8>, &'static str)> {
-    match g.rng.below(8) {
+    match g.rng.below(9) {
+        8 => {
+            let x = sw_x_with_rhs_in_subfield::<P>(g)?;
+            let f = if g.rng.chance(1, 2) { 0x80 } else { 0 };
+            Some((enc_field(&x, f, 2), "x with x^3+b in the prime subfield (compressed layout)"))
+        },
         0 | 1 => {
             // on the curve, (almost surely) outside the subgroup when cofactor != 1
             let p = sw_random_curve_point::<P>(g);
@@ -1048,7 +1087,12 @@ fn zcash_encode<P: sw::SWCurveConfig>(x: &P::BaseField, y: &P::BaseField, flags:
 pub fn zcash_foreign<P: sw::SWCurveConfig>(g: &mut G<'_>, c: Compress) -> Option<(Vec<u8>, &'static str)> {
     let cbit = if matches!(c, Compress::Yes) { 0x80u8 } else { 0 };
     let sortbit = |y: &P::BaseField| if matches!(c, Compress::Yes) && lex_gt(y, &-*y) { 0x20u8 } else { 0 };
-    match g.rng.below(9) {
+    match g.rng.below(10) {
+        9 => {
+            let x = sw_x_with_rhs_in_subfield::<P>(g)?;
+            let f = if g.rng.chance(1, 2) { 0xa0 } else { 0x80 };
+            Some((zcash_encode::<P>(&x, &x, f, Compress::Yes), "x with x^3+b in the prime subfield (compressed layout)"))
+        },
         0 | 1 => {
             let p = sw_random_curve_point::<P>(g);
             Some((zcash_encode::<P>(&p.x, &p.y, cbit | sortbit(&p.y), c), "random curve point"))
@@ -1087,5 +1131,99 @@ pub fn zcash_foreign<P: sw::SWCurveConfig>(g: &mut G<'_>, c: Compress) -> Option
             let p = (P::GENERATOR * gen_scalar::<P::ScalarField>(g)).into_affine();
             Some((zcash_encode::<P>(&p.x, &p.y, cbit | sortbit(&p.y), c), "valid point"))
         },
+    }
+}
+
+// ------------------------------------------------------------ wire models for the primitive "malformed input" clauses of C18
+
+fn model_bool(bytes: &[u8]) -> Model {
+    match bytes.first() {
+        None => Model::Short,
+        Some(0) | Some(1) => Model::Accept { consumed: 1, valid: true, what: "boolean" },
+        Some(_) => Model::Reject("invalid boolean byte"),
+    }
+}
+
+impl Wire for bool {
+    fn model(bytes: &[u8], _c: Compress) -> Model {
+        model_bool(bytes)
+    }
+    fn foreign(g: &mut G<'_>, _c: Compress) -> Option<(Vec<u8>, &'static str)> {
+        Some((vec![g.rng.range(2, 255) as u8], "boolean byte 2..255"))
+    }
+}
+
+impl Wire for Option<bool> {
+    fn model(bytes: &[u8], _c: Compress) -> Model {
+        match model_bool(bytes) {
+            Model::Accept { .. } if bytes[0] == 0 => Model::Accept { consumed: 1, valid: true, what: "None" },
+            Model::Accept { .. } => match model_bool(&bytes[1..]) {
+                Model::Accept { .. } => Model::Accept { consumed: 2, valid: true, what: "Some(bool)" },
+                m => m,
+            },
+            m => m,
+        }
+    }
+    fn foreign(g: &mut G<'_>, _c: Compress) -> Option<(Vec<u8>, &'static str)> {
+        if g.rng.chance(1, 2) {
+            Some((vec![g.rng.range(2, 255) as u8, g.rng.below(2) as u8], "option tag 2..255"))
+        } else {
+            Some((vec![1, g.rng.range(2, 255) as u8], "Some(boolean byte 2..255)"))
+        }
+    }
+}
+
+impl Wire for Vec<bool> {
+    fn model(bytes: &[u8], _c: Compress) -> Model {
+        if bytes.len() < 8 {
+            return Model::Short;
+        }
+        let n = u64::from_le_bytes(bytes[..8].try_into().unwrap());
+        if (bytes.len() as u64 - 8) < n {
+            return Model::Short;
+        }
+        for i in 0..n as usize {
+            if bytes[8 + i] > 1 {
+                return Model::Reject("invalid boolean byte");
+            }
+        }
+        Model::Accept { consumed: 8 + n as usize, valid: true, what: "Vec<bool>" }
+    }
+    fn foreign(g: &mut G<'_>, _c: Compress) -> Option<(Vec<u8>, &'static str)> {
+        let n = g.rng.range(1, 20);
+        let mut b = (n as u64).to_le_bytes().to_vec();
+        b.extend((0..n).map(|_| g.rng.below(2) as u8));
+        let pos = 8 + g.rng.below(n);
+        b[pos] = g.rng.range(2, 255) as u8;
+        Some((b, "one element byte 2..255"))
+    }
+}
+
+impl Wire for String {
+    fn model(bytes: &[u8], _c: Compress) -> Model {
+        if bytes.len() < 8 {
+            return Model::Short;
+        }
+        let n = u64::from_le_bytes(bytes[..8].try_into().unwrap());
+        if (bytes.len() as u64 - 8) < n {
+            return Model::Short;
+        }
+        match std::str::from_utf8(&bytes[8..8 + n as usize]) {
+            Ok(_) => Model::Accept { consumed: 8 + n as usize, valid: true, what: "UTF-8 string" },
+            Err(_) => Model::Reject("invalid UTF-8"),
+        }
+    }
+    fn foreign(g: &mut G<'_>, _c: Compress) -> Option<(Vec<u8>, &'static str)> {
+        let bad: &[&[u8]] = &[&[0xff], &[0xc0, 0x80], &[0xe2, 0x82], &[0xed, 0xa0, 0x80], &[0xf8, 0x88, 0x80, 0x80, 0x80], &[0x80], &[0xf4, 0x90, 0x80, 0x80]];
+        let pre = g.rng.range(0, 6);
+        let mut body: Vec<u8> = (0..pre).map(|_| b'a' + g.rng.below(26) as u8).collect();
+        let pick: &[u8] = bad[g.rng.below(bad.len())];
+        body.extend_from_slice(pick);
+        if g.rng.chance(1, 2) {
+            body.extend_from_slice(b"xyz");
+        }
+        let mut b = (body.len() as u64).to_le_bytes().to_vec();
+        b.extend(body);
+        Some((b, "invalid UTF-8 with a correct length prefix"))
     }
 }
